@@ -4,9 +4,12 @@ import MioModel.Generated
 import MioModel.Varint
 import MioModel.Decoder
 import MioModel.RemoteAddr
+import MioModel.ResourceId
 import MioModel.AsFound.Decoder
 import MioModel.Lemmas.Varint
 import MioModel.Lemmas.Decoder
+import MioModel.Lemmas.ResourceId
 import MioModel.Props.C02
+import MioModel.Props.C14
 import MioModel.Props.C17
 import MioModel.Props.C19
